@@ -102,9 +102,12 @@ def generate(seed: int, tier: str) -> Dict[str, Any]:
     ops = E.gen_ops(rng.stream("ops"), world, r.randint(2, 8), turn_ids=r.choice(["seq", "seq", "rand"]))
     if r.chance(0.3):
         # the logical clock handed over as ctx.now_ms only (ctx.now unset), the way run_smoke_turn builds its context
+        as_float = r.chance(0.4)
         for o in ops:
             if o["op"] == "turn":
                 o["with_now"] = False
+                if as_float:
+                    o["now_ms_float"] = True
     if r.chance(0.3):
         # fresh process in the middle of the sequence: state comes back from the snapshot directory (E5 varies the order in
         # which that directory is enumerated; tied time stamps are what a restore from backup / checkout leaves behind)
